@@ -75,6 +75,18 @@ Theorem C18_resume_replans_when_destination_differs : forall comp dst src e,
 Proof. exact plan_resume_d_replans_when_destination_differs. Qed.
 Print Assumptions C18_resume_replans_when_destination_differs.
 
+(* THE TWIN STATEMENT for --resume, for the whole run: with ANY state file, the run that leaves the completed entries out of the plan
+   (they still count for the deletion plan: the code hands the whole scan to plan_deletions) ends with the same destination, the
+   same errors and the same refusal as the run without resume -- under --delete or not, with any filter, default comparison. *)
+Theorem C18_resume_run_same_outcome : forall refuse ds c now U keep src dst comp,
+  c_checksum c = false -> c_ignore_times c = false ->
+  let out := filter (resumed_out comp dst) src in
+  let r1 := run refuse ds c now U keep src dst in
+  let r2 := run refuse ds c now U (keep ++ out) (plan_resume_d comp dst src) dst in
+  r_fs r2 = r_fs r1 /\ r_errors r2 = r_errors r1 /\ r_refused r2 = r_refused r1.
+Proof. exact resume_run_same_outcome. Qed.
+Print Assumptions C18_resume_run_same_outcome.
+
 (* non-vacuity: a history in which a file was edited twice, a database with the row of the older version *)
 Definition ex_versions (p : path) : list (Z * N * N) := if peqb p [1%N] then [(100%Z, 5%N, 7%N); (200%Z, 5%N, 8%N)] else [].
 Example ex_history : history_ok ex_versions /\ db_truthful ex_versions [mk_row [1%N] 100 5 7] /\
@@ -85,3 +97,18 @@ Proof.
   - intros r [<-|[]]. cbn. auto.
   - cbn. auto.
 Qed.
+
+(* non-vacuity of the twin statement: three source files; the state lists [1] (still in the destination: left out), [2] (the
+   destination lost it: planned and created) and [3] (the destination holds other bytes with another time stamp: planned and
+   updated); a stale file [9] is deleted in both runs *)
+Example ex_resume_twin :
+  let c := mk_cfg true true 100 false false false false 1000000 0 in
+  let src := [mk_sentry [1%N] false 5 10 71 false; mk_sentry [2%N] false 6 20 72 false; mk_sentry [3%N] false 7 30 73 false] in
+  let dst := fun p => if peqb p [1%N] then Some (File 71 5 10) else if peqb p [3%N] then Some (File 99 7 555000000000) else
+                      if peqb p [9%N] then Some (File 1 1 1) else None in
+  let comp := [mk_completed [1%N] 5 71; mk_completed [2%N] 6 72; mk_completed [3%N] 7 73] in
+  let U := [[1%N]; [2%N]; [3%N]; [9%N]] in
+  let r2 := run (fun _ _ _ => false) (fun _ => (0%N, 0%Z)) c 0 U (filter (resumed_out comp dst) src) (plan_resume_d comp dst src) dst in
+  length (plan_resume_d comp dst src) = 2 /\
+  map (r_fs r2) U = [Some (File 71 5 10); Some (File 72 6 20); Some (File 73 7 30); None].
+Proof. vm_compute. split; reflexivity. Qed.
